@@ -158,3 +158,48 @@ func C19_Glob_3() {
 	nd.Assert(documentedErr(err), "Glob fails only with a regexp syntax error")
 	nd.Assert(len(paths) == 0 || err == nil, "no paths together with an error")
 }
+
+// deepProgram nests one kind of multi-line compound construct k times.
+func deepProgram(kind, k int) string {
+	open := []string{"{\n", "(\n", "if a\nthen\n", "while a\ndo\n", "for i in x\ndo\n", "f() {\n", "x=$(\n", "case x in\na)\n"}[kind]
+	clos := []string{"\n}", "\n)", "\nfi", "\ndone", "\ndone", "\n}", "\n)", "\n;;\nesac"}[kind]
+	s := "b"
+	for i := 0; i < k; i++ {
+		s = open + s + clos
+	}
+	return s
+}
+
+// C19_Deep: deeply nested multi-line constructs (1, 5, 9 or 12 levels of one
+// kind, optionally inside a brace group) measured and printed under four
+// configurations (default, spaces, Case indentation, everything on new lines).
+func C19_Deep() {
+	kind := nd.Choice(8)
+	k := []int{1, 5, 9, 12}[nd.Choice(4)]
+	src := deepProgram(kind, k)
+	if nd.Choice(2) == 1 {
+		src = "{\n" + src + "\n}"
+	}
+	cmds, comments, err := parseStream([]rune(src))
+	nd.Assert(err == nil, "a deeply nested program is accepted")
+	if err != nil {
+		nd.Observe(src)
+		nd.Observe(errStr(err))
+		return
+	}
+	measure(cmds, comments)
+	cfg := []*printer.Config{
+		{Indent: printer.Tab, Redir: printer.After, Assign: printer.Before},
+		{Indent: printer.Space, Width: 2, Redir: printer.Before | printer.Space, Assign: printer.After},
+		{Indent: printer.Tab, Case: true},
+		{Indent: printer.Space, Width: 8, Do: printer.Newline, Then: printer.Newline, Case: true},
+	}[nd.Choice(4)]
+	out, perr := PrintCmds(cfg, cmds)
+	nd.Assert(perr == nil, "Fprint of a deeply nested program reports no error")
+	cmds2, _, err2 := parseStream([]rune(out))
+	nd.Assert(err2 == nil, "the printed deeply nested program is accepted")
+	if err2 == nil {
+		nd.Assert(SkelEq(cmds2) == SkelEq(cmds), "the printed deeply nested program denotes the same program")
+	}
+	nd.Observe(itoa(kind) + " x " + itoa(k))
+}
